@@ -11,6 +11,9 @@ pub struct ForeignCfg {
     pub max_chunks: usize,
     pub scs_pct: u64,
     pub nonminimal_ok: bool,
+    /// 1 in `many_one_in` streams (0: never) is a "many" stream: more than 1024 distinct chunk
+    /// stream ids, or more than 1024 tiny messages
+    pub many_one_in: u64,
 }
 
 pub struct Foreign {
@@ -62,7 +65,57 @@ struct Template {
     len: usize,
 }
 
+/// "Many" streams: tables with a cap and loops with a bound show only past the cap.  Either
+/// N > 1024 distinct chunk stream ids each opened by one tiny message, after which early, middle
+/// and late ones are revisited with compressed headers; or N > 1024 tiny messages on 1-3 ids.
+fn gen_many(rng: &mut Rng, cfg: &ForeignCfg) -> Foreign {
+    let mut enc = Encoder::new();
+    let mut f = Foreign { msgs: vec![], chunks: vec![], choices: vec![], scs: vec![] };
+    let n = *rng.pick(&[1025usize, 1026, 1030, 1100, 2049, 2100, 4100]);
+    let distinct = rng.chance(2, 3);
+    let stride = *rng.pick(&[1u32, 1, 3, 15]);
+    let base = rng.range(2, 65599 - (n as u64) * (stride as u64)) as u32;
+    let ids: Vec<u32> = if distinct { (0..n as u32).map(|i| base + i * stride).collect() } else { (0..rng.usize(1, 3) as u32).map(|i| base + i * stride).collect() };
+    let mut clock: u64 = rng.below(1000);
+    let mut push = |enc: &mut Encoder, f: &mut Foreign, rng: &mut Rng, csid: u32, m: Msg, nonneg: bool| {
+        let c = enc.random_choice(rng, csid, &m, nonneg, cfg.nonminimal_ok);
+        f.chunks.push(enc.encode(&m, &c));
+        f.msgs.push(m);
+        f.choices.push(c);
+        f.scs.push(None);
+    };
+    let type_of = |csid: u32| [8u8, 9, 18, 20, 4, 22][(csid % 6) as usize];
+    let len_of = |csid: u32| (csid % 5) as usize;
+    for i in 0..n {
+        let csid = ids[i % ids.len()];
+        clock += rng.below(40);
+        let mut data = vec![0u8; len_of(csid)];
+        rng.fill(&mut data);
+        let m = Msg { type_id: type_of(csid), msid: 1 + csid % 3, ts: clock as u32, data };
+        push(&mut enc, &mut f, rng, csid, m, true);
+    }
+    // revisit: same length, type and message stream as before, so that every compressed format is legal
+    let revisit = rng.usize(8, 40);
+    for j in 0..revisit {
+        let csid = match j % 4 {
+            0 => ids[j / 4 % ids.len()],                // the earliest ones
+            1 => ids[ids.len() - 1 - (j / 4 % ids.len())], // the latest ones
+            2 => ids[ids.len() / 2],
+            _ => *rng.pick(&ids),
+        };
+        clock += rng.below(40);
+        let mut data = vec![0u8; len_of(csid)];
+        rng.fill(&mut data);
+        let m = Msg { type_id: type_of(csid), msid: 1 + csid % 3, ts: clock as u32, data };
+        push(&mut enc, &mut f, rng, csid, m, true);
+    }
+    f
+}
+
 pub fn gen_foreign(rng: &mut Rng, cfg: &ForeignCfg) -> Foreign {
+    if cfg.many_one_in > 0 && rng.chance(1, cfg.many_one_in) {
+        return gen_many(rng, cfg);
+    }
     let mut enc = Encoder::new();
     let n = match rng.below(5) {
         0 => rng.usize(1, 3),
